@@ -19,6 +19,7 @@ RULE = (
     "the edge} on one origin/angle edge object (evaluated or not before the first step), re-compared after every step; "
     "plus the chord bound for every edge kind. non-trivial = distinct "
     "(frame, centre, radius, angle[, fraction]) point"
+    " Origin arcs up to 3.13 rad."
 )
 ASSUMPTIONS = ["lattice, not continuum", "angle-and-axis arcs follow the right-hand rule from the first to the second vertex"]
 
